@@ -164,6 +164,31 @@ def impl_sheet(size, marks, bleed):
     return [page.width, page.height, bleeds.pop(), tuple(page._page_box.style['marks'])]
 
 
+SIDES = ('top', 'right', 'bottom', 'left')
+
+
+def box_html(size, dims):
+    decls = ''.join(f' margin-{side}: {v};' for side, v in zip(SIDES, dims[:4]))
+    decls += ''.join(f' padding-{side}: {v};' for side, v in zip(SIDES, dims[4:]))
+    return (f'<style>html {{ font-size: {ROOT_FONT_SIZE}px }} @page {{{"" if size is None else f" size: {size};"}{decls} }}'
+            f'</style><body>')
+
+
+def impl_sheetbox(size, dims):
+    page = docs.render(box_html(size, dims)).pages[0]
+    pb = page._page_box
+    return [page.width, page.height, pb.width, pb.height, pb.margin_top, pb.margin_right, pb.margin_bottom, pb.margin_left,
+            pb.padding_top, pb.padding_right, pb.padding_bottom, pb.padding_left]
+
+
+def css_dim_wire(text):
+    if text == 'auto':
+        return 'auto'
+    if text.endswith('%'):
+        return ['pct', F(text[:-1])]
+    return F(text[:-2])
+
+
 # ---- correspondence ----------------------------------------------------------------------------------------
 
 def snapped(values, model_out, snap):
@@ -265,6 +290,47 @@ def correspondence(prop, run):
         sec.add(line, out, meta={'fn': 'sheet', 'args': args, 'html': sheet_html(*args),
                                  'result': [float(v) for v in res[:3]] + [list(res[3])] if isinstance(res, list) else res},
                 nontrivial=True, tags=['doc'])
+    sec = run.section(
+        'sheet-page-boxes', 'documents `@page { size: <name / orientation / lengths>; margin-*: px | % | auto; padding-*: '
+        'px | % }` rendered by the real pipeline: Page.width/height, content size, used margins and paddings vs the model '
+        '(computed size → resolve_percentages → page_width / page_height); non-trivial = a percentage refers to a sheet '
+        'given by a keyword')
+    cases = []
+    names = size_names()
+    for _ in range(run.n(60, 800)):
+        r = rng.random()
+        if r < 0.6:
+            parts = [rng.choice(names[4:11] + names[15:22] + names[-14:])]
+            if rng.random() < 0.6:
+                parts.insert(rng.choice([0, 1]), rng.choice(['portrait', 'landscape']))
+            size = ' '.join(parts)
+        elif r < 0.75:
+            size = rng.choice(['landscape', 'portrait', 'auto', None])
+        else:
+            size = ' '.join(rng.choice(['200px', '5in', '148mm', '21cm', '600q', '40pc', '612pt', '350.5px'])
+                            for _ in range(rng.choice([1, 2])))
+
+        def one(auto):
+            r2 = rng.random()
+            if r2 < auto:
+                return 'auto'
+            if r2 < auto + 0.45:
+                return rng.choice(['5%', '10%', '12.5%', '2.5%', '0%', '6.25%'])
+            return rng.choice(['0px', '10px', '12.5px', '30px', '7.25px'])
+        dims = [one(0.2) for _ in range(4)] + [one(0.0) for _ in range(4)]
+        line = sx.line('sheetbox', ROOT_FONT_SIZE, ROOT_FONT_SIZE, 'none' if size is None else wire_tokens(tokens_of(size)),
+                       [css_dim_wire(v) for v in dims])
+        cases.append((line, docs.outcome(lambda: impl_sheetbox(size, dims)), [size, dims]))
+    for (line, res, args), mout in zip(cases, model([c[0] for c in cases])):
+        if isinstance(res, list):
+            atoms = snapped(res, mout, snap)
+            out = ' '.join('(' + ' '.join(atoms[a:b]) + ')' for a, b in ((0, 2), (2, 4), (4, 8), (8, 12)))
+        else:
+            out = res
+        sec.add(line, out, meta={'fn': 'sheetbox', 'args': args, 'html': box_html(*args),
+                                 'result': [float(v) for v in res] if isinstance(res, list) else res},
+                nontrivial=any(v.endswith('%') for v in args[1]) and args[0] is not None and not args[0][0].isdigit(),
+                tags=['keyword' if args[0] and not args[0][0].isdigit() else 'lengths'])
     run.extra['float_rounding_sheet'] = snap.rounded
 
 
@@ -388,6 +454,32 @@ def judge(meta, impl):
                 if isinstance(res, str) or not close(res, px):
                     return f'bleed: {text} computes to {res}; expected {float(px)}px'
         return None
+    if fn == 'sheetbox':
+        size, dims = args
+        res = meta.get('result')
+        if not isinstance(res, list):
+            return f'rendering {meta.get("html")!r} raised {res}'
+        want = spec_size(size) if size is not None else SPEC_SIZES['a4']
+        if not isinstance(want, tuple):
+            return None
+        if not (close(res[0], want[0]) and close(res[1], want[1])):
+            return (f'@page {{ size: {size} }}: Page.width x height = {res[0]} x {res[1]}; css-page-3 gives '
+                    f'{float(want[0])} x {float(want[1])}')
+        # percentages of the page box refer to the sheet: width for left / right, height for top / bottom
+        for k, (side, text) in enumerate(zip(SIDES * 2, dims)):
+            if text == 'auto':
+                continue
+            referent = want[1] if side in ('top', 'bottom') else want[0]
+            px = referent * F(text[:-1]) / 100 if text.endswith('%') else F(text[:-2])
+            if not close(res[4 + k], px):
+                what = 'margin' if k < 4 else 'padding'
+                return (f'@page {{ size: {size}; {what}-{side}: {text} }}: used {what}-{side} is {res[4 + k]}, expected '
+                        f'{float(px)} ({text} of the sheet {"height" if side in ("top", "bottom") else "width"} '
+                        f'{float(referent)})')
+        mt, mr, mb, ml, pt, pr, pb_, pl = res[4:12]
+        if abs(ml + pl + res[2] + pr + mr - res[0]) > 1e-6 or abs(mt + pt + res[3] + pb_ + mb - res[1]) > 1e-6:
+            return f'@page {{ size: {size} }}: the content area {res[2]} x {res[3]} is not what remains of the sheet: {res}'
+        return None
     if fn == 'sheet':
         size, marks, bleed = args
         res = meta.get('result')
@@ -424,6 +516,10 @@ def replay(meta):
     if fn == 'bleedc':
         res = docs.outcome(lambda: impl_bleedc(tuple(args[0]), args[1]))
         meta['result'] = res if isinstance(res, str) else float(res)
+        return judge(meta, res if isinstance(res, str) else 'ok')
+    if fn == 'sheetbox':
+        res = docs.outcome(lambda: impl_sheetbox(*args))
+        meta['result'] = [float(v) for v in res] if isinstance(res, list) else res
         return judge(meta, res if isinstance(res, str) else 'ok')
     if fn == 'sheet':
         res = docs.outcome(lambda: impl_sheet(*args))
